@@ -194,11 +194,12 @@ def run(prop, tier):
     rep = common.Report(prop, tier)
     plan = PLANS[tier]
     lays = []
-    for name, sim in (("bfs", None), ("line3", None), ("rand3", f"num={max(1, plan['rand'] // 400)}")):
+    for name, sim in (("bfs", None), ("line3", None), ("cline2", None), ("rand3", f"num={max(1, plan['rand'] // 400)}")):
         d = tlcrun.fresh_dir(common.outdir(prop, "gen_" + name))
         cfg = os.path.join(d, "gen.cfg")
-        tlcrun.write_cfg(cfg, constants={"MaxCalls": plan["MaxCalls"] if name == "bfs" else 3,
-                                         "Mode": {"line3": '"line"', "bfs": '"wide"'}.get(name, '"rand"')}, invariants=["Export"])
+        tlcrun.write_cfg(cfg, constants={"MaxCalls": plan["MaxCalls"] if name == "bfs" else (2 if name == "cline2" else 3),
+                                         "Mode": {"line3": '"line"', "bfs": '"wide"', "cline2": '"cline"'}.get(name, '"rand"')},
+                         invariants=["Export"])
         out = os.path.join(d, "layouts.ndjson")
         st = tlcrun.run("GenLayout", cfg, d, env={"OUT_FILE": out}, workers=16, simulate=sim,
                         extra_args=(["-depth", "8", "-seed", str(common.seed() + 9)] if sim else []))
@@ -210,7 +211,7 @@ def run(prop, tier):
             return (len(lay["calls"]), lay["wrap"], lay["extra"], lay["pre"], lay["kind"],
                     tuple(sorted({c["brk"] for c in lay["calls"]})), tuple(sorted({c["deco"] for c in lay["calls"]})),
                     len({(c["op"], c["p"]) for c in lay["calls"]}), lay["split"], lay["recv"])
-        if name != "line3":          # the one-line family is small and is replayed completely
+        if name not in ("line3", "cline2"):          # the small exhaustive families are replayed completely
             got = common.subsample_stratified(got, plan["keep"] if sim is None else plan["rand"], salt=name, key=feat)
         rep.extra.setdefault("families", {})[name] = {"generated": total, "replayed": len(got)}
         lays += got
